@@ -139,6 +139,15 @@ Theorem C14_from_dict_mirrors_input : forall (dd : dmapper) (calc : info -> did)
 Proof. exact from_dict_built. Qed.
 Print Assumptions C14_from_dict_mirrors_input.
 
+(* the other direction: a canonical dict list (per item exactly what to_dict
+   writes: "data" a string that reads back under that name, "data_id" only when
+   not the default, "children" only when non-empty) is reproduced exactly by
+   to_dict_list(from_dict(obj)) *)
+Theorem C14_canonical_roundtrip : forall (dd : dmapper) (next : nat) (obj : list jv) (f : forest),
+  Forall (canon dd) obj -> from_dict dd default_did next obj = inl f -> to_dict_list sm_none f = obj.
+Proof. exact canonical_roundtrip. Qed.
+Print Assumptions C14_canonical_roundtrip.
+
 (* Node.from_dict on a childless node of an existing tree (any calc_data_id
    hook, any input): a tree with unique sibling ids stays one *)
 Theorem C14_node_from_dict_safe : forall dd calc next (f : forest) target obj f',
@@ -175,6 +184,9 @@ Proof. exact ex_dump. Qed.
 Example C14_ex_rebuilt :
   exists f', tree_from_dict (dd_raw ex_raw) 5 (to_dict_list sm_none ex_f) = inl f' /\ ids f' = [6; 7; 8; 9; 10]%nat.
 Proof. eexists. split; [exact ex_rebuilt|reflexivity]. Qed.
+
+Example C14_ex_canonical : Forall (canon (dd_raw ex_raw)) (to_dict_list sm_none ex_f).
+Proof. exact ex_canon. Qed.
 
 (* objects with an inverse mapper pair (value-equal objects, an identity-hashed
    object, a clone, an explicit id) *)
